@@ -103,10 +103,10 @@ def _lines_case(code):
     return {"status": "ok", "nontrivial": "\n" in code}
 
 
-bounded_check(name="lines-small-scope", fn=_lines_case, domain=_texts, exhaustive=True,
+bounded_check(name="lines-small-scope", props=["C14"], fn=_lines_case, domain=_texts, exhaustive=True,
               label="B3: every text of length <= 6 over {a,\\n} (thorough: <= 7 over {a,\\n,\\r,space}); line index, inverse laws, get_line vs str.split")
 
 from bounded import c14_tokens as _b14
-bounded_check(name="c14-tokens", fn=_b14.run_case, domain=_b14.domain, exhaustive=True, max_failures=100000, max_failures_per_chunk=100000,
+bounded_check(name="c14-tokens", props=["C14"], fn=_b14.run_case, domain=_b14.domain, exhaustive=True, max_failures=100000, max_failures_per_chunk=100000,
               label="B3: every text of <= 5 (thorough 6) symbols over an 11-symbol string alphabet and of <= 4 (thorough 5) symbols over a 17-symbol code "
                     "alphabet that compiles, plus 18 fixed literals and 12 attribute chains: ignored regions, real_code, logical lines (two finders), words, primaries vs tokenize")
